@@ -672,3 +672,48 @@ Proof.
   - unfold u64_small, ex_set. cbn [os_nonce os_members]. split; [vm_compute; reflexivity|].
     repeat constructor; cbn [snd]; vm_compute; reflexivity.
 Qed.
+
+(* ================= accepted confirms, the contract, and transplanted signatures ================= *)
+
+Section Usable.
+  Variable recover : bool -> list Z -> list Z -> option Z.
+
+  (* what was verified is a signature over the very bytes the contract hashes: an accepted confirm for an
+     object whose uint64 fields are below 2^63 recovers to the oracle's key over sol_preimage *)
+  Theorem accepted_is_contract_digest : forall st m k,
+    handle recover st m = Accepted k ->
+    exists o sig orc,
+      assoc okey_eqb (msg_okey m) (st_objs st) = Some o /\
+      assoc Z.eqb (snd k) (st_oracles st) = Some orc /\
+      m_sig m = Some sig /\
+      (wf_obj o -> u64_small o ->
+       sig_signer recover (st_tron st) (sol_preimage (st_gid st) o) sig = Some (o_external orc)).
+  Proof.
+    intros st m k H. apply handle_accept_iff in H.
+    destruct H as (o & pre & sig & orc & EO & EP & ES & _ & ER & _ & _ & EG & _).
+    exists o, sig, orc. repeat split; auto. intros W S.
+    unfold go_checkpoint in EP. destruct (zlen (st_gid st) <=? 32); [|discriminate]. injection EP as <-.
+    rewrite <- (layout_agrees_small (st_tron st)); auto.
+  Qed.
+
+  (* a signature that binds one pre-image (recover yields the key only on P0) is accepted only for the
+     stored object and gravity id whose pre-image is P0: signatures made for another nonce, object, kind
+     or gravity id are refused unless the pre-images coincide, which go_preimage_injective excludes *)
+  Theorem no_transplant : forall st m k g0 o0 sig orc,
+    handle recover st m = Accepted k ->
+    m_sig m = Some sig ->
+    assoc Z.eqb (snd k) (st_oracles st) = Some orc ->
+    (forall P, sig_signer recover (st_tron st) P sig = Some (o_external orc) -> P = go_preimage (st_tron st) g0 o0) ->
+    wf_gid g0 -> wf_obj o0 -> wf_gid (st_gid st) ->
+    forall o, assoc okey_eqb (msg_okey m) (st_objs st) = Some o -> wf_obj o ->
+    b32_of_bytes (st_gid st) = b32_of_bytes g0 /\ o = o0.
+  Proof.
+    intros st m k g0 o0 sig orc H ES ER B G0 W0 G o EO W.
+    apply handle_accept_iff in H.
+    destruct H as (o' & pre & sig' & orc' & EO' & EP & ES' & _ & ER' & _ & _ & EG & _).
+    rewrite EO in EO'. injection EO' as <-. rewrite ES in ES'. injection ES' as <-.
+    rewrite ER in ER'. injection ER' as <-.
+    unfold go_checkpoint in EP. destruct (zlen (st_gid st) <=? 32); [|discriminate]. injection EP as <-.
+    apply B in EG. apply go_preimage_injective in EG; auto.
+  Qed.
+End Usable.
